@@ -183,7 +183,14 @@ func VerifExpiryState(b *Bucket) (next uint32, timerSet bool) {
 func VerifFireExpiry(b *Bucket) { b.expManager.runExpiry() }
 
 // VerifStopExpiryTimer stops the real timer so that only VerifFireExpiry runs expirations.
-func VerifStopExpiryTimer(b *Bucket) { b.expManager.stop() }
+func VerifStopExpiryTimer(b *Bucket) {
+	e := b.expManager
+	e.mutex.Lock()
+	defer e.mutex.Unlock()
+	if e.timer != nil {
+		e.timer.Stop()
+	}
+}
 
 // VerifFeedCount returns how many live feeds are registered per collection name.
 func VerifFeedCount(b *Bucket) map[string]int {
